@@ -32,8 +32,9 @@ type c03Scn struct {
 var c03Ignorable = []string{"raw", "sack-beyond", "sack-gap0", "sack-gap-inverted", "sack-gap-outside", "fwd-stale", "unknown-chunk",
 	"initack", "cookieack", "cookieecho-bad", "init-established", "shutack", "shutcomp", "hback", "hb", "error", "data-dup", "data-beyond",
 	"badlen-short", "badlen-long", "init-badparam", "reconf-unknown-resp", "sack-old", "empty-packet", "abort-bad-checksum", "data-nodata",
-	"sack-far", "fwd-far", "data-far"}
-var c03Forgeries = []string{"mutate", "sack-valid", "fwd-ahead", "data-new", "shutdown", "reconf-reset", "wrong-kind", "abort", "fwd-half"}
+	"sack-far", "fwd-far", "data-far",
+	"wrong-kind"} // (a chunk of the framing that was not negotiated: dropped with an ABORT, or not at all)
+var c03Forgeries = []string{"mutate", "sack-valid", "fwd-ahead", "data-new", "shutdown", "reconf-reset", "abort", "fwd-half"}
 
 // c03FarOff: a 32-bit distance biased to the places where serial-number arithmetic changes
 // its answer (half the number space and its neighbours, quarter points, just below 2^32).
@@ -63,7 +64,7 @@ func c03FarOff(a, b int) uint32 {
 
 func genC03(rt *rapid.T) c03Scn {
 	var x c03Scn
-	x.Sc = genTransfer(rt, vfGenOpts{minRBuf: 30000}, 8, 200, rapid.SampledFrom([]int{0, 0, 20}).Draw(rt, "intensity"))
+	x.Sc = genTransfer(rt, vfGenOpts{minRBuf: 30000, prStreams: true}, 8, 200, rapid.SampledFrom([]int{0, 0, 20}).Draw(rt, "intensity"))
 	// keep traffic flowing for a while: spread the writes
 	for i := range x.Sc.Acts {
 		x.Sc.Acts[i].AtMs = rapid.IntRange(0, 1200).Draw(rt, "wat")
